@@ -666,7 +666,7 @@ impl Runner {
                 // Never let the child return into the caller (proptest catches panics and would
                 // carry on searching - and forking - inside the child).
                 unsafe {
-                    libc::alarm(20);
+                    libc::alarm(180);
                     let r = std::panic::catch_unwind(std::panic::AssertUnwindSafe(|| self.child(case, engines, from)));
                     libc::_exit(if r.is_ok() { 0 } else { 97 });
                 }
